@@ -96,8 +96,11 @@ func zzTopLevel(stmt ast.Stmt) []ast.Stmt {
 func ZZ_C15_P3_P4b_compose() {
 	s1 := zzSnippets[zz.Choose(len(zzSnippets))]
 	s2 := zzSnippets[zz.Choose(len(zzSnippets))]
+	g0 := ""
 	if zz.Symbolic() {
 		zz.FreezeGlobals()
+	} else {
+		g0 = zz.GlobalsDump() // native oracle: the variables the engine named, dumped before and after
 	}
 	t1, e1 := ParseSrc(s1)
 	t1b, e1b := ParseSrc(s1)
@@ -105,6 +108,8 @@ func ZZ_C15_P3_P4b_compose() {
 	if zz.Symbolic() {
 		zz.Assertf(zz.Events("frozen-write") == 0, "C15.P3.parse-writes-no-shared-state", zz.EventText("frozen-write"))
 		zz.Unfreeze()
+	} else {
+		zz.Assert(zz.GlobalsDump() == g0, "C15.P3.parse-writes-no-shared-state")
 	}
 	zz.Assert(e1 == nil && e2 == nil && e1b == nil, "C15.P4b.snippets-parse")
 	if e1 != nil || e2 != nil {
